@@ -5,6 +5,7 @@ package actor
 import (
 	"context"
 	"errors"
+	"fmt"
 	"sync"
 	"sync/atomic"
 	"testing"
@@ -64,6 +65,11 @@ type c35Case struct {
 	OtherMark  bool   `json:"other_mark"`  // live: an unrelated endpoint is inside its handoff window
 	DeliverMs  int    `json:"deliver_ms"`  // stub delivery duration (across / bypass)
 	DeliverErr bool   `json:"deliver_err"` // stub returns an error instead of a value
+	// sendsync only: the target is pinned to the relocating endpoint for PinPct % of
+	// the timeout and then resolves to a per-case survivor actor on system B that
+	// replies at once ("fast"), after a full timeout ("late") or never ("never")
+	Survivor string `json:"survivor"`
+	PinPct   int    `json:"pin_pct"`
 }
 
 func (c c35Case) sync() bool { return c.Path == "across" || c.Path == "sendsync" }
@@ -128,6 +134,14 @@ func c35Gen(t *rapid.T) c35Case {
 		if c.TauMs > 2000 {
 			c.TauMs = 2000
 		}
+		if c.Path == "sendsync" && rapid.IntRange(0, 2).Draw(t, "survivor_variant") == 0 {
+			c.Survivor = rapid.SampledFrom([]string{"fast", "late", "never", "never"}).Draw(t, "survivor")
+			c.TimeoutMs = rapid.OneOf(rapid.SampledFrom([]int{300, 360, 500, 900}), rapid.IntRange(300, 900)).Draw(t, "survivor_timeout_ms")
+			c.PinPct = rapid.IntRange(30, 80).Draw(t, "pin_pct")
+			c.CtxMs, c.Mode, c.AfterCalls = 0, "pinned", 0
+			c.TauMs = c.TimeoutMs * c.PinPct / 100
+			return c
+		}
 		if c.Mode == "pinned_gap" {
 			hi := c.TauMs
 			if hi < 0 {
@@ -172,6 +186,46 @@ func (a *c35Echo) Receive(ctx *ReceiveContext) {
 	}
 }
 
+// c35Survivor is the actor the relocated target "re-registers" as on system B.
+// It records the context its handler observes for the request.
+type c35Survivor struct {
+	mode  string
+	delay time.Duration
+	done  chan struct{}
+
+	mu          sync.Mutex
+	saw         bool
+	at          time.Time
+	hasDeadline bool
+	deadline    time.Time
+}
+
+func (*c35Survivor) PreStart(*Context) error { return nil }
+func (*c35Survivor) PostStop(*Context) error { return nil }
+func (a *c35Survivor) Receive(ctx *ReceiveContext) {
+	if _, ok := ctx.Message().(*testpb.TestPing); !ok {
+		return
+	}
+	now := time.Now()
+	dl, has := ctx.Context().Deadline()
+	a.mu.Lock()
+	first := !a.saw
+	if first {
+		a.saw, a.at, a.hasDeadline, a.deadline = true, now, has, dl
+	}
+	a.mu.Unlock()
+	switch a.mode {
+	case "fast":
+		ctx.Response(new(testpb.TestPong))
+	case "late":
+		time.Sleep(a.delay)
+		ctx.Response(new(testpb.TestPong))
+	}
+	if first {
+		close(a.done)
+	}
+}
+
 type c35Idle struct{}
 
 func (*c35Idle) PreStart(*Context) error { return nil }
@@ -185,6 +239,7 @@ type c35Answer struct {
 
 // c35Script is the registry behaviour of one execution.
 type c35Script struct {
+	name  string
 	c     c35Case
 	start time.Time
 	live  *internalpb.Actor
@@ -250,7 +305,7 @@ type c35Cluster struct {
 
 func (f *c35Cluster) GetActor(_ context.Context, name string) (*internalpb.Actor, error) {
 	s := f.cur.Load()
-	if s == nil || name != c35EchoName {
+	if s == nil || name != s.name {
 		return nil, cluster.ErrActorNotFound
 	}
 	return s.resolve()
@@ -265,6 +320,7 @@ type c35Fixture struct {
 	dead     *internalpb.Actor
 	liveHP   string
 	deadHP   string
+	deadPort int
 	otherHP  string
 	startErr error
 }
@@ -331,6 +387,7 @@ func c35NewFixture(t *testing.T) *c35Fixture {
 	fix.dead.IncarnationId = ""
 	fix.liveHP = address.FormatHostPort("127.0.0.1", portB)
 	fix.deadHP = address.FormatHostPort("127.0.0.1", ports[0])
+	fix.deadPort = ports[0]
 	fix.otherHP = address.FormatHostPort("127.0.0.1", ports[1])
 
 	// the simulated registry goes in only now: nothing above must reach it
@@ -367,6 +424,8 @@ type c35Outcome struct {
 
 var c35ErrStub = errors.New("c35: stub delivery failure")
 
+var c35SurvSeq atomic.Int64
+
 func c35Run(x *vfkit.X, fix *c35Fixture, c c35Case, rep int) c35Outcome {
 	sys := fix.a
 	if !sys.Running() || !fix.sender.IsRunning() || !fix.b.Running() {
@@ -374,7 +433,38 @@ func c35Run(x *vfkit.X, fix *c35Fixture, c c35Case, rep int) c35Outcome {
 	}
 	sys.relocatingEndpoints.Reset()
 
-	script := &c35Script{c: c, live: fix.live, dead: fix.dead}
+	target := c35EchoName
+	script := &c35Script{name: target, c: c, live: fix.live, dead: fix.dead}
+	var surv *c35Survivor
+	if c.Survivor != "" {
+		target = fmt.Sprintf("c35surv%d", c35SurvSeq.Add(1))
+		surv = &c35Survivor{mode: c.Survivor, delay: time.Duration(c.TimeoutMs) * time.Millisecond, done: make(chan struct{})}
+		spid, serr := fix.b.Spawn(context.Background(), target, surv, WithLongLived())
+		if serr != nil {
+			x.Failf("harness-survivor", "spawn survivor: %v", serr)
+		}
+		live, serr := spid.toSerialize()
+		if serr != nil {
+			x.Failf("harness-survivor", "serialize survivor: %v", serr)
+		}
+		dead := proto.Clone(live).(*internalpb.Actor)
+		dead.Address = address.NewReference(target, "c35b", "127.0.0.1", fix.deadPort).String()
+		dead.IncarnationId = ""
+		script.name, script.live, script.dead = target, live, dead
+		defer func() {
+			// let a request that was delivered finish its handler, then remove the actor
+			surv.mu.Lock()
+			saw := surv.saw
+			surv.mu.Unlock()
+			if saw {
+				select {
+				case <-surv.done:
+				case <-time.After(10 * time.Second):
+				}
+			}
+			_ = spid.Shutdown(context.Background())
+		}()
+	}
 	var wg sync.WaitGroup
 	var recoverTimer *time.Timer
 	markedAt := time.Now()
@@ -439,13 +529,13 @@ func c35Run(x *vfkit.X, fix *c35Fixture, c c35Case, rep int) c35Outcome {
 	t0 := time.Now()
 	switch c.Path {
 	case "across":
-		resp, err = fix.sender.deliverAcrossHandoff(ctx, c35EchoName, maxWait, stub)
+		resp, err = fix.sender.deliverAcrossHandoff(ctx, target, maxWait, stub)
 	case "bypass":
-		resp, err = fix.sender.deliverBypassingHandoff(ctx, c35EchoName, stub)
+		resp, err = fix.sender.deliverBypassingHandoff(ctx, target, stub)
 	case "sendsync":
-		resp, err = fix.sender.SendSync(ctx, c35EchoName, new(testpb.TestPing), maxWait)
+		resp, err = fix.sender.SendSync(ctx, target, new(testpb.TestPing), maxWait)
 	case "sendasync":
-		err = fix.sender.SendAsync(ctx, c35EchoName, new(testpb.TestSend))
+		err = fix.sender.SendAsync(ctx, target, new(testpb.TestSend))
 	}
 	t1 := time.Now()
 	ctxExpired := ctx.Err() != nil
@@ -494,7 +584,7 @@ func c35Run(x *vfkit.X, fix *c35Fixture, c c35Case, rep int) c35Outcome {
 
 	// ---- observations shared by all paths -------------------------------------
 	if len(answers) == 0 {
-		x.Failf("name-not-resolved", "the registry was never asked for %q (err=%v)", c35EchoName, err)
+		x.Failf("name-not-resolved", "the registry was never asked for %q (err=%v)", target, err)
 	}
 	if len(calls) > 1 {
 		x.Failf("deliver-invoked-twice", "delivery ran %d times for one send", len(calls))
@@ -590,6 +680,32 @@ func c35Run(x *vfkit.X, fix *c35Fixture, c c35Case, rep int) c35Outcome {
 		d := calls[0]
 		if !d.hasDeadline || d.deadline.Sub(firstObs) > maxWait {
 			x.Failf("delivery-not-bounded-by-caller-budget", "delivery context deadline=%v (+%s after the send started), caller timeout %s", d.hasDeadline, d.deadline.Sub(firstObs), maxWait)
+		}
+	}
+
+	// (3b) real SendSync towards a survivor: the context the survivor's handler
+	// observes must carry a deadline that is not later than the caller's own
+	// deadline. The deadline crosses the wire as "time remaining", so the handler
+	// sees it shifted by the transit time, which is bounded by (handler entry -
+	// last resolution): exact, no timing guess.
+	if surv != nil {
+		surv.mu.Lock()
+		saw, at, has, dl := surv.saw, surv.at, surv.hasDeadline, surv.deadline
+		surv.mu.Unlock()
+		if saw {
+			x.Class("survivor_saw_request_" + c.Survivor)
+			lastAt := answers[len(answers)-1].at
+			base := firstObs
+			if len(sleeps) == 0 {
+				base = at
+			}
+			allowed := base.Add(maxWait).Add(at.Sub(lastAt)).Add(5 * time.Millisecond)
+			x.Logf("  survivor: request at +%s ctxDeadline=%v(+%s) allowed=+%s", at.Sub(t0), has, dl.Sub(t0), allowed.Sub(t0))
+			if !has || dl.After(allowed) {
+				x.Failf("sendsync-delivery-not-bounded-by-caller-budget", "the survivor's handler saw context deadline=%v at +%s after the send started; the caller's timeout is %s and %s of it were spent masking: the delivery was given a fresh timeout", has, dl.Sub(t0), maxWait, lastAt.Sub(t0))
+			}
+		} else {
+			x.Class("survivor_not_reached")
 		}
 	}
 
